@@ -179,7 +179,7 @@ def verify_worker(job):
             fv = verify.FnVerifier(c, repo, tier=tier)
             out["sha"] = fv.sha
             out["lines"] = fv.nlines
-            obs = fv.generate()
+            obs = fv.generate(budget_s=600 if tier == "quick" else 3600)
             out["n_generated"] = len(obs)
             if nshards > 1:
                 # obligation-level parallelism: every shard regenerates (cheap) and solves its share
@@ -204,7 +204,7 @@ def verify_worker(job):
                 c2.unroll = k
                 fv2 = verify.FnVerifier(c2, repo, tier=tier)
                 out.setdefault("sha", fv2.sha)
-                obs2 = [o for o in fv2.generate() if o.kind in CONTRACT_KINDS]
+                obs2 = [o for o in fv2.generate(budget_s=90 if tier == "quick" else 900) if o.kind in CONTRACT_KINDS]
                 fb["obligations"] = solve_all(prop, target, fv2, obs2, repo, tier, timeout_ms, False, budget_s=40 if tier == "quick" else 600)
             except EngineError as e:
                 fb["undecided"] = "%s: %s" % (type(e).__name__, e)
@@ -217,7 +217,7 @@ def verify_worker(job):
             c2.ensures = {"canary": "False"}
             c2.lemmas = []
             fv2 = verify.FnVerifier(c2, repo, tier=tier)
-            obs2 = [o for o in fv2.generate() if o.kind == "ensures"]
+            obs2 = [o for o in fv2.generate(budget_s=300) if o.kind == "ensures"]
             refuted = 0
             for ob in obs2:
                 solve.solve_one(ob, timeout_ms=timeout_ms, use_cvc5=False)
